@@ -3,7 +3,12 @@
 //   DataSymmetriesForBins_PET_CartesianGrid::{find_basic_view_segment_numbers, get_related_view_segment_numbers,
 //     num_related_view_segment_numbers, is_basic}, detail::find_basic_vs_nums_in_subset,
 //   PoissonLogLikelihoodWithLinearModelForMeanAndProjData::subsets_are_approximately_balanced,
-//   IterativeReconstruction::get_subset_num (with rand() scripted by this harness).
+//   IterativeReconstruction::get_subset_num (with rand() scripted by this harness),
+//   IterativeReconstruction/OSMAPOSLReconstruction::set_up + reconstruct (the subset number of every sub-iteration recorded by a
+//     wrapping objective function; random start_subiteration_num / start_subset_num / randomise flag),
+//   BackProjectorByBin::back_project(ProjData, subset, n) / ForwardProjectorByBin::forward_project(ProjData, image, subset, n)
+//     of the matrix projectors (every viewgram read / written recorded by a wrapping ProjData, TOF and non-TOF),
+//   subsets_are_approximately_balanced after set_up (default max_segment_num_to_process = -1, TOF data), TrivialDataSymmetriesForBins.
 // Usage: c06_subsets <seed> <quick|thorough> <opsfile> <implfile>
 // Also evaluates the property's own statement on the implementation (ORACLE lines in implfile's .oracle).
 #include "stir_fixtures.h"
@@ -14,6 +19,16 @@
 #include "stir/recon_buildblock/ProjMatrixByBinUsingRayTracing.h"
 #include "stir/recon_buildblock/ProjectorByBinPairUsingProjMatrixByBin.h"
 #include "stir/OSMAPOSL/OSMAPOSLReconstruction.h"
+#include "stir/recon_buildblock/TrivialDataSymmetriesForBins.h"
+#include "stir/recon_buildblock/ForwardProjectorByBin.h"
+#include "stir/recon_buildblock/BackProjectorByBin.h"
+#include "stir/RelatedViewgrams.h"
+#include "stir/Viewgram.h"
+#include "stir/ExamInfo.h"
+#include <array>
+#include <cmath>
+#include <unistd.h>
+#include <sys/wait.h>
 #include "stir/ProjDataInMemory.h"
 #include "stir/ViewSegmentNumbers.h"
 #include "stir/DiscretisedDensity.h"
@@ -30,8 +45,11 @@ static bool g_rand_scripted = false;
 extern "C" int
 rand(void)
 {
-  if (g_rand_scripted && g_rand_pos < g_rand_script.size())
-    return g_rand_script[g_rand_pos++];
+  if (g_rand_scripted)
+    {
+      const std::size_t k = g_rand_pos++; // counts every call, also beyond the script
+      return k < g_rand_script.size() ? g_rand_script[k] : 12345;
+    }
   return 12345;
 }
 
@@ -64,6 +82,771 @@ vs_list(std::vector<ViewSegmentNumbers> v, bool sort)
   for (std::size_t i = 0; i < p.size(); ++i)
     s << (i ? " " : "") << p[i].first << ":" << p[i].second;
   return s.str();
+}
+
+// ======================================================================================================================
+// Extension: the real reconstruct loop, the real projector loops over (basic view/segment, TOF bin), the balanced flag
+// after set_up, the trivial symmetries class.
+// ======================================================================================================================
+typedef PoissonLogLikelihoodWithLinearModelForMeanAndProjData<TargetT> ObjT;
+
+struct Sink
+{
+  FILE *ops, *out, *orc;
+  long checks = 0, fails = 0;
+};
+
+// the one class of input on which the schedule clause fails on the unchanged tree (see run_recon_cases)
+static const char* const KEY_RESTART = "schedule:randomised-order:start-subiteration-inside-an-iteration:subset-array-read-before-it-is-generated";
+
+struct Geo
+{
+  int V = 0, R = 0, tofbins = 0, flags = 0;
+  shared_ptr<ProjDataInfo> pdi;
+  shared_ptr<ExamInfo> exam;
+  shared_ptr<DiscretisedDensity<3, float>> image;
+  shared_ptr<ProjMatrixByBinUsingRayTracing> pm;
+  shared_ptr<ProjectorByBinPair> pair;
+  const DataSymmetriesForBins_PET_CartesianGrid* sym = nullptr;
+  bool tof() const { return tofbins > 0; }
+};
+
+// V views (2V detectors per ring), R rings, span 1 (segments -(R-1)..R-1), optional TOF (tofbins bins, mashing 1), matrix projectors
+static bool
+make_geo(Geo& g, int V, int R, int tofbins, int flags)
+{
+  g.V = V, g.R = R, g.tofbins = tofbins, g.flags = flags;
+  try
+    {
+      shared_ptr<Scanner> scanner = vh::make_scanner(2 * V, R, tofbins > 0 ? tofbins : -1);
+      g.pdi = vh::make_pdi(scanner, 1, R - 1, V, std::max(1, std::min(5, V - 1)), false, tofbins > 0 ? 1 : 0);
+      g.exam.reset(new ExamInfo);
+      g.exam->imaging_modality = ImagingModality::PT;
+      g.image = vh::make_image(*g.pdi, 1.F, 5, 2 * R - 1);
+      g.image->set_exam_info(*g.exam);
+      g.pm.reset(new ProjMatrixByBinUsingRayTracing);
+      g.pm->set_do_symmetry_90degrees_min_phi(flags & 1);
+      g.pm->set_do_symmetry_180degrees_min_phi(flags & 2);
+      g.pm->set_do_symmetry_swap_segment(flags & 4);
+      g.pair.reset(new ProjectorByBinPairUsingProjMatrixByBin(g.pm));
+      g.pair->set_up(g.pdi, g.image);
+      g.sym = dynamic_cast<const DataSymmetriesForBins_PET_CartesianGrid*>(g.pm->get_symmetries_ptr());
+      return g.sym != nullptr;
+    }
+  catch (...)
+    {
+      return false;
+    }
+}
+
+static void
+put_cfg(Sink& k, const Geo& g)
+{
+  std::fprintf(k.ops, "cfg %d %d %d %d 1 %d\n", g.V, g.flags & 1 ? 1 : 0, g.flags & 2 ? 1 : 0, g.flags & 4 ? 1 : 0, g.tof() ? 1 : 0);
+  std::fprintf(k.out, "eff %d %d %d\n", g.sym->using_symmetry_90degrees_min_phi() ? 1 : 0,
+               g.sym->using_symmetry_180degrees_min_phi() ? 1 : 0, g.sym->using_symmetry_swap_segment() ? 1 : 0);
+}
+
+// ---- objective function that records the subset number of every call and otherwise is the real one
+struct RecObj : public ObjT
+{
+  bool force_balanced = false;
+  std::vector<int> calls;              // subset_num of every sub-gradient computation, in order
+  std::vector<std::size_t> rpos;       // number of rand() calls made before that computation
+  mutable std::vector<int> sens_calls; // subset_num of every subset-sensitivity computation
+  void actual_compute_subset_gradient_without_penalty(TargetT& gradient, const TargetT& estimate, const int subset_num,
+                                                      const bool add_sensitivity) override
+  {
+    calls.push_back(subset_num);
+    rpos.push_back(g_rand_pos);
+    if (subset_num >= 0 && subset_num < this->num_subsets)
+      ObjT::actual_compute_subset_gradient_without_penalty(gradient, estimate, subset_num, add_sensitivity);
+    else
+      std::fill(gradient.begin_all(), gradient.end_all(), 0.F);
+  }
+  void add_subset_sensitivity(TargetT& sensitivity, const int subset_num) const override
+  {
+    sens_calls.push_back(subset_num);
+    ObjT::add_subset_sensitivity(sensitivity, subset_num);
+  }
+  bool actual_subsets_are_approximately_balanced(std::string& w) const override
+  {
+    return force_balanced ? true : ObjT::actual_subsets_are_approximately_balanced(w);
+  }
+};
+
+static int
+draw_of(int r, int n, int i)
+{
+  return (int)(((float)r / (float)RAND_MAX) * (n - i)); // the expression of randomly_permute_subset_order
+}
+
+static bool
+is_perm_block(const std::vector<int>& v, std::size_t from, int n)
+{
+  if (from + n > v.size())
+    return false;
+  std::vector<int> c(n, 0);
+  for (int j = 0; j < n; ++j)
+    {
+      const int x = v[from + j];
+      if (x < 0 || x >= n || c[x]++)
+        return false;
+    }
+  return true;
+}
+
+static std::string
+int_list(const std::vector<int>& v, std::size_t from = 0, std::size_t to = std::string::npos)
+{
+  std::ostringstream s;
+  bool first = true;
+  for (std::size_t j = from; j < v.size() && j < to; ++j, first = false)
+    s << (first ? "" : " ") << v[j];
+  return first ? std::string("-") : s.str();
+}
+
+// ---- (1) IterativeReconstruction::set_up / reconstruct: the schedule observed on the real loop
+static void
+run_recon_cases(vh::Rng& rng, bool thorough, Sink& k)
+{
+  static const int Vs[] = { 2, 3, 4, 5, 6, 7, 8, 9, 10, 12, 15, 16 };
+  const int ncases = thorough ? 15000 : 600;
+  for (int c = 0; c < ncases; ++c)
+    {
+      const int V = (thorough && c % 4 == 3) ? rng.range(2, 24) : Vs[rng.range(0, 11)];
+      const int R = rng.range(1, 2);
+      const int tofbins = (c % 5 == 3) ? (rng.coin() ? 3 : 5) : 0;
+      const int flags = rng.range(0, 7);
+      Geo g;
+      if (!make_geo(g, V, R, tofbins, flags))
+        continue;
+      put_cfg(k, g);
+      const bool force = rng.range(0, 2) != 0;
+      int n;
+      if (force || rng.range(0, 3) == 0)
+        n = rng.range(1, std::min(V, 12));
+      else
+        {
+          std::vector<int> divs;
+          for (int d = 1; d <= V; ++d)
+            if (V % d == 0)
+              divs.push_back(d);
+          n = divs[rng.range(0, static_cast<int>(divs.size()) - 1)];
+        }
+      const bool use_ss = rng.coin();
+      const bool rnd = rng.coin();
+      int ss = rng.range(0, n - 1);
+      int N = n * rng.range(1, 3) + rng.range(0, n - 1);
+      int s0;
+      switch (rng.range(0, 3))
+        {
+        case 0:
+          s0 = 1;
+          break;
+        case 1:
+          s0 = n * rng.range(0, (N - 1) / n) + 1;
+          break;
+        default:
+          s0 = rng.range(1, N);
+        }
+      switch (rng.range(0, 29)) // malformed parameters now and then
+        {
+        case 0: ss = n; break;
+        case 1: ss = -1; break;
+        case 2: s0 = 0; break;
+        case 3: N = 0; break;
+        case 4: n = 0, ss = 0; break;
+        case 5: s0 = N + 1; break;
+        case 6: s0 = N + 3; break;
+        default: break;
+        }
+      // rand() script
+      g_rand_script.clear();
+      std::ostringstream draws;
+      const int K = n > 0 ? n * (std::max(N, 0) / n + 2) : 0;
+      for (int j = 0; j < K; ++j)
+        {
+          const int r = rng.range(0, 9) == 0 ? RAND_MAX : static_cast<int>(rng.next() % (static_cast<uint64_t>(RAND_MAX) + 1));
+          g_rand_script.push_back(r);
+          draws << " " << draw_of(r, n, j % n);
+        }
+      const int maxseg = g.pdi->get_max_segment_num();
+      std::fprintf(k.ops, "recon %d %d %d %d %d %d %d %d%s\n", n, ss, s0, rnd ? 1 : 0, N, force ? 0 : 1, use_ss ? 1 : 0, maxseg,
+                   draws.str().c_str());
+
+      RecObj* obj = new RecObj;
+      shared_ptr<GeneralisedObjectiveFunction<TargetT>> obj_sptr(obj);
+      shared_ptr<ProjData> data(new ProjDataInMemory(g.exam, g.pdi));
+      data->fill(1.F);
+      obj->set_proj_data_sptr(data);
+      obj->set_projector_pair_sptr(g.pair);
+      obj->set_use_subset_sensitivities(use_ss);
+      obj->force_balanced = force;
+      OSMAPOSLReconstruction<TargetT> recon;
+      shared_ptr<TargetT> image(g.image->clone());
+      std::fill(image->begin_all(), image->end_all(), 1.F);
+      bool ok = true;
+      try
+        {
+          recon.set_objective_function_sptr(obj_sptr);
+          recon.set_num_subsets(n);
+          recon.set_start_subset_num(ss);
+          recon.set_num_subiterations(N);
+          recon.set_start_subiteration_num(s0);
+          recon.set_randomise_subset_order(rnd);
+          recon.set_save_interval(std::max(N, 1));
+          recon.set_disable_output(true);
+          if (recon.set_up(image) != Succeeded::yes)
+            ok = false;
+        }
+      catch (...)
+        {
+          ok = false;
+        }
+      if (!ok)
+        {
+          std::fprintf(k.out, "err\n");
+          continue;
+        }
+      // ORACLE: set_up computes the sensitivity of every subset exactly once
+      {
+        ++k.checks;
+        std::vector<int> sc = obj->sens_calls;
+        if (!is_perm_block(sc, 0, n) || static_cast<int>(sc.size()) != n)
+          {
+            ++k.fails;
+            std::fprintf(k.orc, "ORACLE-FAIL set_up did not compute the sensitivity of every subset exactly once: V=%d n=%d: %s\n", V, n,
+                         int_list(sc).c_str());
+          }
+      }
+      const bool restart_inside = rnd && s0 <= N && (s0 - 1) % n != 0;
+      bool crashed = false;
+      if (!restart_inside)
+        {
+          g_rand_pos = 0;
+          g_rand_scripted = true;
+          try
+            {
+              if (recon.reconstruct(image) != Succeeded::yes)
+                ok = false;
+            }
+          catch (...)
+            {
+              ok = false;
+            }
+          g_rand_scripted = false;
+        }
+      else
+        {
+          // The array of the current permutation is indexed before it was ever generated: run it in a child process.
+          std::fflush(k.ops);
+          std::fflush(k.out);
+          std::fflush(k.orc);
+          std::fflush(stdout);
+          std::fflush(stderr);
+          int fd[2];
+          if (pipe(fd) != 0)
+            {
+              std::fprintf(k.out, "harness-error\n");
+              continue;
+            }
+          const pid_t pid = fork();
+          if (pid == 0)
+            {
+              close(fd[0]);
+              g_rand_pos = 0;
+              g_rand_scripted = true;
+              std::string msg;
+              try
+                {
+                  msg = recon.reconstruct(image) == Succeeded::yes ? "ok" : "no";
+                }
+              catch (...)
+                {
+                  msg = "no";
+                }
+              std::ostringstream o;
+              o << msg << " " << obj->calls.size();
+              for (std::size_t j = 0; j < obj->calls.size(); ++j)
+                o << " " << obj->calls[j] << " " << obj->rpos[j];
+              o << " end";
+              const std::string t = o.str();
+              ssize_t ignored = write(fd[1], t.c_str(), t.size());
+              (void)ignored;
+              close(fd[1]);
+              _exit(0);
+            }
+          close(fd[1]);
+          std::string got;
+          char buf[256];
+          ssize_t m;
+          while ((m = read(fd[0], buf, sizeof buf)) > 0)
+            got.append(buf, buf + m);
+          close(fd[0]);
+          int st = 0;
+          waitpid(pid, &st, 0);
+          std::vector<std::string> t = vh::split(got);
+          if (!WIFEXITED(st) || WEXITSTATUS(st) != 0 || t.size() < 3 || t.back() != "end")
+            crashed = true;
+          else
+            {
+              ok = t[0] == "ok";
+              const std::size_t cnt = std::strtoul(t[1].c_str(), nullptr, 10);
+              for (std::size_t j = 0; j < cnt && 3 + 2 * j < t.size(); ++j)
+                {
+                  obj->calls.push_back(std::atoi(t[2 + 2 * j].c_str()));
+                  obj->rpos.push_back(std::strtoul(t[3 + 2 * j].c_str(), nullptr, 10));
+                }
+            }
+        }
+      const std::vector<int>& calls = obj->calls;
+      if (restart_inside)
+        std::fprintf(k.out, "ub\n");
+      else if (!ok)
+        std::fprintf(k.out, "err\n");
+      else
+        std::fprintf(k.out, "%s\n", int_list(calls).c_str());
+
+      // ORACLE (the property's schedule clause on the real loop): one objective-function call per sub-iteration s0..N, all subset
+      // numbers valid, and every full iteration (sub-iterations m*n+1..(m+1)*n inside s0..N) uses each subset exactly once
+      ++k.checks;
+      std::string why;
+      if (crashed)
+        why = "the process died";
+      else if (!ok)
+        why = "reconstruct failed";
+      else
+        {
+          const int expect = std::max(0, N - s0 + 1);
+          if (static_cast<int>(calls.size()) != expect)
+            why = "number of sub-gradient computations differs from the number of sub-iterations";
+          for (int x : calls)
+            if (x < 0 || x >= n)
+              why = "subset number out of range";
+          if (why.empty())
+            {
+              for (int m = 0; (m + 1) * n <= N && why.empty(); ++m)
+                if (m * n + 1 >= s0 && !is_perm_block(calls, m * n + 1 - s0, n))
+                  why = "a full iteration does not use every subset exactly once";
+              // the sub-iterations of an incomplete first iteration must at least be distinct subsets
+              if (why.empty() && (s0 - 1) % n != 0)
+                {
+                  const int len = std::min<int>(n - (s0 - 1) % n, calls.size());
+                  std::set<int> d(calls.begin(), calls.begin() + len);
+                  if (static_cast<int>(d.size()) != len)
+                    why = "the remaining sub-iterations of the iteration in which the run starts repeat a subset";
+                }
+            }
+        }
+      if (!why.empty())
+        {
+          ++k.fails;
+          std::ostringstream txt;
+          txt << why << ": views=" << V << " num_subsets=" << n << " start_subset=" << ss << " start_subiteration=" << s0
+              << " num_subiterations=" << N << " randomise=" << (rnd ? 1 : 0) << " subsets used: " << int_list(calls);
+          if (restart_inside)
+            std::fprintf(k.orc, "KNOWN-CANDIDATE %s %s\n", KEY_RESTART, txt.str().c_str());
+          else
+            std::fprintf(k.orc, "ORACLE-FAIL schedule of reconstruct(): %s\n", txt.str().c_str());
+        }
+      // what can still be compared with the model when the run started inside an iteration and survived: the full iterations
+      // that follow, as generated from the draws that the library consumed for them
+      if (restart_inside && !crashed && ok)
+        {
+          const int b0 = ((s0 - 1) / n + 1) * n + 1; // first sub-iteration of the next iteration
+          const int iters = b0 <= N ? (N - b0 + 1) / n : 0;
+          const std::size_t idx = b0 - s0;
+          if (iters > 0 && idx >= 1 && idx + static_cast<std::size_t>(iters) * n <= calls.size())
+            {
+              const std::size_t base = obj->rpos[idx - 1];
+              std::ostringstream d2;
+              for (int j = 0; j < iters * n; ++j)
+                d2 << " " << draw_of(base + j < g_rand_script.size() ? g_rand_script[base + j] : 12345, n, j % n);
+              std::fprintf(k.ops, "sched %d 0 1 %d%s\n", n, iters, d2.str().c_str());
+              std::fprintf(k.out, "%s\n", int_list(calls, idx, idx + static_cast<std::size_t>(iters) * n).c_str());
+            }
+        }
+    }
+}
+
+// ---- projection data that records every viewgram read and written, otherwise ProjDataInMemory
+typedef std::array<int, 3> VST; // view, segment, TOF bin
+struct RecPD : public ProjDataInMemory
+{
+  mutable std::vector<VST> reads;
+  std::vector<VST> writes;
+  RecPD(const shared_ptr<const ExamInfo>& e, const shared_ptr<const ProjDataInfo>& p)
+      : ProjDataInMemory(e, p)
+  {}
+  using ProjDataInMemory::get_viewgram;
+  Viewgram<float> get_viewgram(const int view_num, const int segment_num, const bool make_num_tangential_poss_odd = false,
+                               const int timing_pos = 0) const override
+  {
+    reads.push_back(VST{ view_num, segment_num, timing_pos });
+    return ProjDataInMemory::get_viewgram(view_num, segment_num, make_num_tangential_poss_odd, timing_pos);
+  }
+  Succeeded set_viewgram(const Viewgram<float>& v) override
+  {
+    writes.push_back(VST{ v.get_view_num(), v.get_segment_num(), v.get_timing_pos_num() });
+    return ProjDataInMemory::set_viewgram(v);
+  }
+};
+
+static std::string
+vst_list(std::vector<VST> v)
+{
+  std::sort(v.begin(), v.end());
+  std::ostringstream s;
+  for (std::size_t i = 0; i < v.size(); ++i)
+    s << (i ? " " : "") << v[i][0] << ":" << v[i][1] << ":" << v[i][2];
+  return v.empty() ? std::string("-") : s.str();
+}
+
+// every (segment, view, TOF bin) of the data exactly once, nothing else
+static bool
+exactly_once(const std::map<VST, int>& count, const ProjDataInfo& pdi)
+{
+  std::size_t expected = 0;
+  for (int seg = pdi.get_min_segment_num(); seg <= pdi.get_max_segment_num(); ++seg)
+    for (int v = pdi.get_min_view_num(); v <= pdi.get_max_view_num(); ++v)
+      for (int t = pdi.get_min_tof_pos_num(); t <= pdi.get_max_tof_pos_num(); ++t)
+        {
+          ++expected;
+          std::map<VST, int>::const_iterator it = count.find(VST{ v, seg, t });
+          if (it == count.end() || it->second != 1)
+            return false;
+        }
+  return count.size() == expected;
+}
+
+static float
+code_value(int seg, int view, int tof)
+{
+  return 1.F + 0.125F * static_cast<float>(((7 * seg + 3 * view + 5 * tof) % 11 + 11) % 11);
+}
+
+// ---- (2) BackProjectorByBin::back_project(ProjData, subset, n) / ForwardProjectorByBin::forward_project(ProjData, image, subset, n)
+static void
+run_projector_loops(vh::Rng& rng, bool thorough, Sink& k)
+{
+  static const int Vs[] = { 2, 3, 4, 5, 6, 8, 9, 12, 16, 20 };
+  const int ncases = thorough ? 5000 : 200;
+  for (int c = 0; c < ncases; ++c)
+    {
+      const int V = (thorough && c % 4 == 3) ? rng.range(2, 32) : Vs[rng.range(0, 9)];
+      const int R = rng.range(1, 3);
+      const int tofbins = (c % 3 == 1) ? (rng.coin() ? 3 : 5) : 0;
+      const int flags = rng.range(0, 7);
+      Geo g;
+      if (!make_geo(g, V, R, tofbins, flags))
+        continue;
+      put_cfg(k, g);
+      int n = rng.range(0, 2) == 0 ? rng.range(1, V) : rng.range(1, std::min(V, 6));
+      const ProjDataInfo& pdi = *g.pdi;
+      const int minseg = pdi.get_min_segment_num(), maxseg = pdi.get_max_segment_num();
+      const int mintof = pdi.get_min_tof_pos_num(), maxtof = pdi.get_max_tof_pos_num();
+      shared_ptr<BackProjectorByBin> bp = g.pair->get_back_projector_sptr();
+      shared_ptr<ForwardProjectorByBin> fp = g.pair->get_forward_projector_sptr();
+      shared_ptr<DataSymmetriesForViewSegmentNumbers> symvs(bp->get_symmetries_used()->clone());
+      std::size_t nbins = 0;
+      // ---------------- back projection
+      for (int pass = 0; pass < 2; ++pass) // pass 0: all-ones data, pass 1: a different constant in every viewgram
+        {
+          RecPD data(g.exam, g.pdi);
+          for (int seg = minseg; seg <= maxseg; ++seg)
+            for (int t = mintof; t <= maxtof; ++t)
+              for (int v = pdi.get_min_view_num(); v <= pdi.get_max_view_num(); ++v)
+                {
+                  Viewgram<float> vg = data.get_empty_viewgram(v, seg, false, t);
+                  vg.fill(pass == 0 ? 1.F : code_value(seg, v, t));
+                  nbins += pass == 0 ? vg.size_all() : 0;
+                  data.set_viewgram(vg);
+                }
+          // reference: this harness' own enumeration of (basic view/segment, TOF bin), one RelatedViewgrams at a time
+          shared_ptr<DiscretisedDensity<3, float>> ref(g.image->get_empty_copy());
+          bp->start_accumulating_in_new_target();
+          for (int seg = minseg; seg <= maxseg; ++seg)
+            for (int v = pdi.get_min_view_num(); v <= pdi.get_max_view_num(); ++v)
+              if (symvs->is_basic(ViewSegmentNumbers(v, seg)))
+                for (int t = mintof; t <= maxtof; ++t)
+                  bp->back_project(data.get_related_viewgrams(ViewSegmentNumbers(v, seg), symvs, false, t));
+          bp->get_output(*ref);
+          shared_ptr<DiscretisedDensity<3, float>> sum(g.image->get_empty_copy());
+          std::map<VST, int> count;
+          for (int i = 0; i < n; ++i)
+            {
+              shared_ptr<DiscretisedDensity<3, float>> part(g.image->get_empty_copy());
+              data.reads.clear();
+              bp->back_project(*part, data, i, n);
+              if (pass == 0)
+                {
+                  std::fprintf(k.ops, "bp %d %d %d %d %d %d\n", i, n, minseg, maxseg, mintof, maxtof);
+                  std::fprintf(k.out, "%s\n", vst_list(data.reads).c_str());
+                  for (const VST& x : data.reads)
+                    count[x]++;
+                }
+              DiscretisedDensity<3, float>::full_iterator s = sum->begin_all();
+              for (DiscretisedDensity<3, float>::const_full_iterator p = part->begin_all_const(); p != part->end_all_const(); ++p, ++s)
+                *s += *p;
+            }
+          shared_ptr<DiscretisedDensity<3, float>> full(g.image->get_empty_copy());
+          bp->back_project(*full, data);
+          if (pass == 0)
+            {
+              // ORACLE: over all subsets every (segment, view, TOF bin) is back projected exactly once
+              ++k.checks;
+              if (!exactly_once(count, pdi))
+                {
+                  ++k.fails;
+                  std::fprintf(k.orc, "ORACLE-FAIL back_project(ProjData, subset, n): the viewgrams read over all subsets are not every (segment, view, TOF bin) exactly once: V=%d R=%d tofbins=%d flags=%d n=%d\n",
+                               V, R, tofbins, flags, n);
+                }
+            }
+          // ORACLE: the subset back projections add up to the back projection of all data (all terms are >= 0, so the forward
+          // error of either float sum is at most (#bins) * 2^-24 * value; bound used: 4 * #bins * 2^-24 * value)
+          ++k.checks;
+          const double rel = 4. * static_cast<double>(nbins) * std::ldexp(1., -24);
+          double worst = 0., worst_full = 0.;
+          bool bad = false;
+          {
+            DiscretisedDensity<3, float>::const_full_iterator r = ref->begin_all_const(), s = sum->begin_all_const(),
+                                                              f = full->begin_all_const();
+            for (; r != ref->end_all_const(); ++r, ++s, ++f)
+              {
+                const double tol = rel * std::fabs(*r) + 1e-30;
+                if (!(std::fabs(static_cast<double>(*s) - *r) <= tol) || !(std::fabs(static_cast<double>(*f) - *r) <= tol))
+                  bad = true;
+                worst = std::max(worst, std::fabs(static_cast<double>(*s) - *r));
+                worst_full = std::max(worst_full, std::fabs(static_cast<double>(*f) - *r));
+              }
+          }
+          if (bad)
+            {
+              ++k.fails;
+              std::fprintf(k.orc, "ORACLE-FAIL back projections of the %d subsets do not add up to the back projection of every (segment, view, TOF bin): V=%d R=%d tofbins=%d flags=%d data=%s max|sum-ref|=%g max|full-ref|=%g\n",
+                           n, V, R, tofbins, flags, pass == 0 ? "ones" : "coded", worst, worst_full);
+            }
+        }
+      // ---------------- forward projection
+      {
+        shared_ptr<DiscretisedDensity<3, float>> image(g.image->clone());
+        for (DiscretisedDensity<3, float>::full_iterator p = image->begin_all(); p != image->end_all(); ++p)
+          *p = static_cast<float>(0.5 + rng.unit());
+        ProjDataInMemory ref(g.exam, g.pdi);
+        ref.fill(-1.F);
+        fp->set_input(*image);
+        for (int seg = minseg; seg <= maxseg; ++seg)
+          for (int v = pdi.get_min_view_num(); v <= pdi.get_max_view_num(); ++v)
+            if (symvs->is_basic(ViewSegmentNumbers(v, seg)))
+              for (int t = mintof; t <= maxtof; ++t)
+                {
+                  RelatedViewgrams<float> vgs = ref.get_empty_related_viewgrams(ViewSegmentNumbers(v, seg), symvs, false, t);
+                  fp->forward_project(vgs);
+                  ref.set_related_viewgrams(vgs);
+                }
+        RecPD acc(g.exam, g.pdi);
+        acc.fill(-1.F); // a forward projection of a positive image is >= 0: -1 marks what was never written
+        std::map<VST, int> count;
+        for (int i = 0; i < n; ++i)
+          {
+            acc.writes.clear();
+            fp->forward_project(acc, *image, i, n, /*zero=*/false);
+            std::fprintf(k.ops, "fp %d %d %d %d %d %d\n", i, n, minseg, maxseg, mintof, maxtof);
+            std::fprintf(k.out, "%s\n", vst_list(acc.writes).c_str());
+            for (const VST& x : acc.writes)
+              count[x]++;
+          }
+        RecPD full(g.exam, g.pdi);
+        full.fill(-1.F);
+        fp->forward_project(full, *image);
+        // ORACLE: over all subsets every (segment, view, TOF bin) viewgram is written exactly once ...
+        ++k.checks;
+        if (!exactly_once(count, pdi))
+          {
+            ++k.fails;
+            std::fprintf(k.orc, "ORACLE-FAIL forward_project(ProjData, image, subset, n): the viewgrams written over all subsets are not every (segment, view, TOF bin) exactly once: V=%d R=%d tofbins=%d flags=%d n=%d\n",
+                         V, R, tofbins, flags, n);
+          }
+        // ... and with the values of a viewgram-by-viewgram forward projection (bitwise: same arithmetic per viewgram)
+        ++k.checks;
+        int differ = 0, differ_full = 0;
+        for (int seg = minseg; seg <= maxseg; ++seg)
+          for (int t = mintof; t <= maxtof; ++t)
+            for (int v = pdi.get_min_view_num(); v <= pdi.get_max_view_num(); ++v)
+              {
+                const Viewgram<float> a = static_cast<const ProjDataInMemory&>(acc).ProjDataInMemory::get_viewgram(v, seg, false, t);
+                const Viewgram<float> f = static_cast<const ProjDataInMemory&>(full).ProjDataInMemory::get_viewgram(v, seg, false, t);
+                const Viewgram<float> r = ref.get_viewgram(v, seg, false, t);
+                if (!std::equal(a.begin_all(), a.end_all(), r.begin_all()))
+                  ++differ;
+                if (!std::equal(f.begin_all(), f.end_all(), r.begin_all()))
+                  ++differ_full;
+              }
+        if (differ || differ_full)
+          {
+            ++k.fails;
+            std::fprintf(k.orc, "ORACLE-FAIL forward projection by subsets differs from the viewgram-by-viewgram forward projection in %d viewgrams (all data at once: %d): V=%d R=%d tofbins=%d flags=%d n=%d\n",
+                         differ, differ_full, V, R, tofbins, flags, n);
+          }
+      }
+    }
+}
+
+// ---- (3) balanced flag after the objective function's set_up (default max_segment_num_to_process = -1, TOF data),
+//          and the trivial symmetries class
+static void
+run_balanced_after_set_up(vh::Rng& rng, bool thorough, Sink& k)
+{
+  static const int Vs[] = { 2, 3, 4, 6, 8, 9, 12, 16 };
+  const int ncases = thorough ? 2000 : 100;
+  for (int c = 0; c < ncases; ++c)
+    {
+      const int V = Vs[rng.range(0, 7)];
+      const int R = rng.range(1, 3);
+      const int tofbins = (c % 2 == 1) ? (rng.coin() ? 3 : 5) : 0;
+      const int flags = rng.range(0, 7);
+      Geo g;
+      if (!make_geo(g, V, R, tofbins, flags))
+        continue;
+      put_cfg(k, g);
+      const int datamax = g.pdi->get_max_segment_num();
+      shared_ptr<ProjData> data(new ProjDataInMemory(g.exam, g.pdi));
+      data->fill(1.F);
+      std::vector<int> ns;
+      for (int n = 1; n <= V; ++n)
+        if (n <= 4 || V % n == 0 || rng.range(0, 3) == 0)
+          ns.push_back(n);
+      for (int n : ns)
+        {
+          // requested max segment: the default -1 (most of the time), a valid number, or one that is too large
+          const int pick = rng.range(0, 9);
+          const int req = pick <= 5 ? -1 : pick <= 8 ? rng.range(0, datamax) : datamax + 1;
+          const bool use_ss = rng.range(0, 3) != 0;
+          ObjT obj;
+          obj.set_proj_data_sptr(data);
+          obj.set_projector_pair_sptr(g.pair);
+          obj.set_max_segment_num_to_process(req);
+          obj.set_use_subset_sensitivities(use_ss);
+          obj.set_num_subsets(n);
+          bool ok = true;
+          try
+            {
+              shared_ptr<TargetT> image(g.image->clone());
+              if (obj.set_up(image) != Succeeded::yes)
+                ok = false;
+            }
+          catch (...)
+            {
+              ok = false;
+            }
+          std::fprintf(k.ops, "balancedsu %d %d %d %d\n", n, req, datamax, use_ss ? 1 : 0);
+          if (!ok)
+            {
+              std::fprintf(k.out, "err\n");
+              continue;
+            }
+          const bool b = obj.subsets_are_approximately_balanced();
+          const int used = obj.get_max_segment_num_to_process();
+          std::fprintf(k.out, "%d %d\n", b ? 1 : 0, used);
+          // ORACLE: balanced iff all subsets process the same number of viewgrams (of the segments that are used; every viewgram
+          // stands for the same number of TOF bins)
+          ++k.checks;
+          std::vector<std::size_t> counts;
+          for (int i = 0; i < n; ++i)
+            {
+              std::size_t cnt = 0;
+              for (auto& bvs : detail::find_basic_vs_nums_in_subset(*g.pdi, *g.sym, -used, used, i, n))
+                {
+                  std::vector<ViewSegmentNumbers> rel;
+                  g.sym->get_related_view_segment_numbers(rel, bvs);
+                  cnt += rel.size();
+                }
+              counts.push_back(cnt);
+            }
+          const bool equal = std::all_of(counts.begin(), counts.end(), [&](std::size_t x) { return x == counts[0]; });
+          if (equal != b || (req == -1 && used != datamax) || (req >= 0 && used != req))
+            {
+              ++k.fails;
+              std::fprintf(k.orc, "ORACLE-FAIL after set_up: balanced flag %d, per-subset viewgram counts %s, max segment used %d (requested %d, data %d): V=%d flags=%d tofbins=%d n=%d\n",
+                           b ? 1 : 0, equal ? "equal" : "unequal", used, req, datamax, V, flags, tofbins, n);
+            }
+        }
+    }
+  // ---- TrivialDataSymmetriesForBins: no symmetries at all
+  const int nt = thorough ? 40 : 8;
+  for (int c = 0; c < nt; ++c)
+    {
+      const int V = c < 4 ? c + 1 : rng.range(5, 48);
+      const int R = rng.range(1, 3);
+      const int tofbins = c % 2 ? 5 : 0;
+      shared_ptr<ProjDataInfo> pdi;
+      try
+        {
+          shared_ptr<Scanner> scanner = vh::make_scanner(2 * V, R, tofbins > 0 ? tofbins : -1);
+          pdi = vh::make_pdi(scanner, 1, R - 1, V, std::max(1, std::min(5, V - 1)), false, tofbins > 0 ? 1 : 0);
+        }
+      catch (...)
+        {
+          continue;
+        }
+      TrivialDataSymmetriesForBins sym(pdi);
+      const DataSymmetriesForViewSegmentNumbers& symvs = sym;
+      std::fprintf(k.ops, "cfgtrivial %d\n", V);
+      std::fprintf(k.out, "eff 0 0 0\n");
+      const int min_tof = pdi->get_min_tof_pos_num(), max_tof = pdi->get_max_tof_pos_num();
+      for (int seg = -(R - 1); seg <= R - 1; ++seg)
+        for (int v = 0; v < V; ++v)
+          {
+            ViewSegmentNumbers vs(v, seg);
+            const bool change = sym.find_basic_view_segment_numbers(vs);
+            std::fprintf(k.ops, "basic %d %d\n", v, seg);
+            std::fprintf(k.out, "%d %d %d\n", vs.view_num(), vs.segment_num(), change ? 1 : 0);
+            std::vector<ViewSegmentNumbers> rel;
+            sym.get_related_view_segment_numbers(rel, ViewSegmentNumbers(v, seg));
+            std::fprintf(k.ops, "rel %d %d\n", v, seg);
+            std::fprintf(k.out, "%s\n", vs_list(rel, true).c_str());
+            std::fprintf(k.ops, "nrel %d %d\n", v, seg);
+            std::fprintf(k.out, "%d\n", sym.num_related_view_segment_numbers(ViewSegmentNumbers(v, seg)));
+            ++k.checks;
+            if (!symvs.is_basic(ViewSegmentNumbers(v, seg)))
+              {
+                ++k.fails;
+                std::fprintf(k.orc, "ORACLE-FAIL TrivialDataSymmetriesForBins: view %d segment %d is not basic\n", v, seg);
+              }
+          }
+      for (int n = 1; n <= V; ++n)
+        {
+          if (!(n <= 4 || V % n == 0 || rng.range(0, 3) == 0))
+            continue;
+          const int maxseg = rng.range(0, R - 1);
+          std::map<std::pair<int, int>, int> count;
+          for (int i = 0; i < n; ++i)
+            {
+              std::vector<ViewSegmentNumbers> all;
+              for (auto& b : detail::find_basic_vs_nums_in_subset(*pdi, sym, -maxseg, maxseg, i, n))
+                {
+                  std::vector<ViewSegmentNumbers> rel;
+                  sym.get_related_view_segment_numbers(rel, b);
+                  all.insert(all.end(), rel.begin(), rel.end());
+                }
+              for (auto& x : all)
+                count[std::make_pair(x.view_num(), x.segment_num())]++;
+              std::fprintf(k.ops, "subset %d %d %d %d %d %d\n", i, n, -maxseg, maxseg, min_tof, max_tof);
+              std::fprintf(k.out, "%s\n", vs_list(all, true).c_str());
+            }
+          ++k.checks;
+          bool ok = count.size() == static_cast<std::size_t>(V) * (2 * maxseg + 1);
+          for (auto& kv : count)
+            if (kv.second != 1 || kv.first.first < 0 || kv.first.first >= V || std::abs(kv.first.second) > maxseg)
+              ok = false;
+          if (!ok)
+            {
+              ++k.fails;
+              std::fprintf(k.orc, "ORACLE-FAIL partition with TrivialDataSymmetriesForBins V=%d n=%d maxseg=%d tofbins=%d\n", V, n, maxseg, tofbins);
+            }
+        }
+    }
 }
 
 int
@@ -307,6 +1090,16 @@ main(int argc, char** argv)
             std::fprintf(orc, "ORACLE-FAIL schedule n=%d start=%d randomise=%d: %s\n", n, start_subset, randomise, seq.str().c_str());
           }
       }
+  }
+  // ---- extension: real reconstruct loop, projector loops, balanced flag after set_up, trivial symmetries
+  {
+    Sink k;
+    k.ops = ops, k.out = out, k.orc = orc;
+    run_recon_cases(rng, thorough, k);
+    run_projector_loops(rng, thorough, k);
+    run_balanced_after_set_up(rng, thorough, k);
+    oracle_checks += k.checks;
+    oracle_fails += k.fails;
   }
   std::fprintf(orc, "ORACLE-DONE checks=%ld fails=%ld\n", oracle_checks, oracle_fails);
   std::fclose(ops);
